@@ -2,6 +2,10 @@
 use crate::*;
 use hnv_common::pkt::*;
 
+/// the generators record verdicts of the real code; a panic there (a defect under test) must not stop the generation
+fn guarded<T>(default: T, f: impl FnOnce() -> T) -> T {
+    std::panic::catch_unwind(std::panic::AssertUnwindSafe(f)).unwrap_or(default)
+}
 fn frames_of(r: &mut Rng, kind: u64, v6: bool, id: u64) -> Vec<Vec<u8>> {
     connection(r, &ConnSpec::new(kind, v6, id), CLOCK).into_iter().map(|f| f.0).collect()
 }
@@ -120,7 +124,7 @@ fn r_case(chunks: &[Vec<u8>]) -> String {
     let mut rd = huginn_net_tls::tls_client_hello_reader::TlsClientHelloReader::new();
     let mut toks = vec!["R".to_string()];
     for c in chunks {
-        let o = match rd.add_bytes(c) { Ok(Some(_)) => 's', Ok(None) => 'n', Err(_) => 'e' };
+        let o = guarded('e', std::panic::AssertUnwindSafe(|| match rd.add_bytes(c) { Ok(Some(_)) => 's', Ok(None) => 'n', Err(_) => 'e' }));
         toks.push(format!("{}:{}", hex_or_dash(c), o));
     }
     toks.join(" ")
@@ -481,7 +485,7 @@ fn gen_hist(r: &mut Rng, tier: &Tier, out: &mut Vec<String>) {
                 probe = frames_of(r, kind, v6, n_id);
                 let k = match e { "t" | "pt" => Kind::Tcp, "l" | "pl" => Kind::Tls, "h" | "ph" => Kind::Http, _ => Kind::Unified };
                 let mut a = Seq::new(k, db(), 1000);
-                if probe.iter().enumerate().any(|(i, f)| !a.packet(f, CLOCK + 1000 + 50 * i as u64).is_empty()) { break; }
+                if guarded(true, std::panic::AssertUnwindSafe(|| probe.iter().enumerate().any(|(i, f)| !a.packet(f, CLOCK + 1000 + 50 * i as u64).is_empty()))) { break; }
             }
             out.push(format!("H {} {} | {}", e, junk.join(";"), join_hex(&probe)));
         }
@@ -700,9 +704,9 @@ fn t_case(kind: &str, segs: &[(u64, Vec<u8>)]) -> String {
     let mut toks = vec![kind.to_string()];
     for (f, p) in segs {
         let mut o = 'n';
-        if !p.is_empty() && (flows.contains_key(f) || huginn_net_tls::tls_process::is_tls_traffic(p)) {
+        if !p.is_empty() && (flows.contains_key(f) || guarded(false, || huginn_net_tls::tls_process::is_tls_traffic(p))) {
             let rd = flows.entry(*f).or_insert_with(TlsClientHelloReader::new);
-            match rd.add_bytes(p) { Ok(Some(_)) => { o = 's'; flows.remove(f); } Ok(None) => {} Err(_) => { o = 'e'; flows.remove(f); } }
+            match guarded(Err(()), std::panic::AssertUnwindSafe(|| rd.add_bytes(p).map_err(|_| ()))) { Ok(Some(_)) => { o = 's'; flows.remove(f); } Ok(None) => {} Err(_) => { o = 'e'; flows.remove(f); } }
         }
         toks.push(format!("{}:{}:{}", f, hex_or_dash(p), o));
     }
@@ -721,7 +725,7 @@ fn gen_tls_flow(r: &mut Rng, tier: &Tier, out: &mut Vec<String>) {
         for k in 0..nd {                                                                            // 1..3 damaged records on F
             let mut d = damaged_hello(r, &h);
             // mostly end on a record the real parser rejects (complete, header intact, Err): the case the flow must survive
-            if k + 1 == nd && r.chance(2, 3) { for _ in 0..30 { if huginn_net_tls::tls_process::parse_tls_client_hello(&d).is_err() { break; } d = damaged_hello(r, &h); } }
+            if k + 1 == nd && r.chance(2, 3) { for _ in 0..30 { if guarded(true, || huginn_net_tls::tls_process::parse_tls_client_hello(&d).is_err()) { break; } d = damaged_hello(r, &h); } }
             for c in split2(r, &d) { segs.push((f, c)); }
             if r.chance(1, 6) { let n = r.below(30) as usize; segs.push((g + 2000, r.bytes(n))); }
         }
@@ -745,6 +749,63 @@ fn gen_tls_flow(r: &mut Rng, tier: &Tier, out: &mut Vec<String>) {
             out.push(format!("H {} {} | {}", e, join_hex(&junk), join_hex(&probe)));
         }
     }
+}
+
+// ------------------------------------------------------------------ HTTP/1 line-structure grammar (direct entry points)
+fn j_case(kind: &str, d: &[u8]) -> String {
+    // verdict of the real parser, recorded for the model (which decides N itself and E for an empty first line)
+    let (a, _) = guarded(('E', None), || http1_direct(kind == "q", d));
+    format!("J {} {} {}", kind, hex_or_dash(d), match a { 'S' => 's', 'N' => 'n', _ => 'e' })
+}
+fn gen_http1_lines(r: &mut Rng, tier: &Tier, out: &mut Vec<String>) {
+    let eols: [&[u8]; 3] = [b"\r\n", b"\n", b"\r"];
+    // every sequence of 0..3 leading empty lines over {CRLF, LF, CR}
+    let mut leads: Vec<Vec<u8>> = vec![vec![]];
+    let mut level: Vec<Vec<u8>> = vec![vec![]];
+    for _ in 0..3 { let mut next = Vec::new(); for l in &level { for e in eols { let mut x = l.clone(); x.extend_from_slice(e); next.push(x); } } leads.extend(next.iter().cloned()); level = next; }
+    let starts_q: [&[u8]; 9] = [b"GET / HTTP/1.1", b"POST /a?b=c HTTP/1.0", b"", b" ", b"GET /", b"GET / HTTP/9.9", b"FOO / HTTP/1.1", b"GET  /  HTTP/1.1", b"HTTP/1.1 200 OK"];
+    let starts_s: [&[u8]; 9] = [b"HTTP/1.1 200 OK", b"HTTP/1.0 404 Not Found", b"", b" ", b"HTTP/1.1", b"HTTP/1.1 abc", b"HTTP/2.0 200", b"HTTP/1.1 200", b"GET / HTTP/1.1"];
+    let hdrs: [&[u8]; 10] = [b"Host: a", b"X: y", b"", b"NoColon", b": v", b" folded", b"A:", b"Server: nginx", b"Content-Length: 0", b"Cookie: a=1; b"];
+    // exhaustive: lead x start line x line terminator x (0..2 header lines incl. an empty one in an odd place) x terminating blank line or not
+    for (kind, starts) in [("q", &starts_q), ("s", &starts_s)] {
+        for lead in &leads { for st in starts.iter() { for eol in eols { for hv in 0..4 { for term in [true, false] {
+            let mut d = lead.clone();
+            d.extend_from_slice(st); d.extend_from_slice(eol);
+            let hs: Vec<&[u8]> = match hv { 0 => vec![], 1 => vec![hdrs[0]], 2 => vec![hdrs[0], hdrs[2], hdrs[1]], _ => vec![hdrs[3], hdrs[1]] };
+            for h in hs { d.extend_from_slice(h); d.extend_from_slice(eol); }
+            if term { d.extend_from_slice(eol); }
+            if tier.thorough || lead.len() <= 4 || r.chance(1, 3) { out.push(j_case(kind, &d)); }
+            if r.chance(1, 12) { out.push(format!("E d1 {}", hex_or_dash(&d))); out.push(format!("E {} {}", if kind == "q" { "q1" } else { "s1" }, hex_or_dash(&d))); }
+        } } } } }
+    }
+    // random sentences of the grammar: mixed terminators per line, empty lines anywhere, optional body, the same prefixed to valid messages
+    let valid_q = b"GET /index.html HTTP/1.1\r\nHost: example.org\r\nUser-Agent: curl/7.68.0\r\nAccept: */*\r\n\r\n".to_vec();
+    let valid_s = b"HTTP/1.1 200 OK\r\nServer: nginx/1.18.0\r\nContent-Length: 5\r\n\r\nhello".to_vec();
+    for _ in 0..tier.scale(3000, 30000) {
+        let kind = if r.chance(1, 2) { "q" } else { "s" };
+        let mut d: Vec<u8> = Vec::new();
+        for _ in 0..r.below(4) { d.extend_from_slice(*r.pick(&eols)); }
+        if r.chance(1, 3) { d.extend_from_slice(if kind == "q" { &valid_q } else { &valid_s }); }
+        else {
+            let st: &[u8] = if kind == "q" { *r.pick(&starts_q) } else { *r.pick(&starts_s) };
+            if r.chance(5, 6) { d.extend_from_slice(st); d.extend_from_slice(*r.pick(&eols)); }
+            for _ in 0..r.below(5) { d.extend_from_slice(*r.pick(&hdrs)); d.extend_from_slice(*r.pick(&eols)); }
+            if r.chance(2, 3) { d.extend_from_slice(*r.pick(&eols)); }
+            if r.chance(1, 4) { d.extend_from_slice(b"body\n\nmore"); }
+        }
+        if r.chance(1, 10) { let k = r.below(d.len() as u64 + 1) as usize; d.truncate(k); }
+        out.push(j_case(kind, &d));
+        if r.chance(1, 6) { let mut x = d.clone(); if !x.is_empty() { let i = r.below(x.len() as u64) as usize; x[i] = *r.pick(&[0xffu8, 0x80, 0xc3, 0]); } out.push(format!("E d1 {}", hex_or_dash(&x))); }
+    }
+    for b in http1_samples(r) { out.push(format!("E d1 {}", hex_or_dash(&b))); }
+    // HTTP/2 direct entry points behind leading garbage
+    for variant in 0..5 { let v = h2_request(variant); for lead in leads.iter().take(13) { for junk in [&b""[..], &b"\0"[..], &b"PRI"[..], &b"PRI * HTTP/2.0\r\n"[..]] {
+        let mut d = lead.clone(); d.extend_from_slice(junk); d.extend_from_slice(&v);
+        out.push(format!("E d2 {}", hex(&d)));
+        let mut e = lead.clone(); e.extend_from_slice(junk); e.extend_from_slice(&v[24..]);
+        out.push(format!("E d2 {}", hex(&e)));
+    } } }
+    for b in h2_samples(r, false).iter().take(tier.scale(400, 4000)) { out.push(format!("E d2 {}", hex_or_dash(b))); }
 }
 
 // ------------------------------------------------------------------ inputs at the 64 KiB bounds
@@ -788,4 +849,5 @@ pub fn gen(r: &mut Rng, tier: &Tier, out: &mut Vec<String>) {
     gen_hist(r, tier, out);
     gen_hist_state(r, tier, out);
     gen_tls_flow(r, tier, out);
+    gen_http1_lines(r, tier, out);
 }
